@@ -63,7 +63,11 @@ def main():
         mp = os.path.join(dst, "meta.json")
         if os.path.exists(mp):
             old = json.load(open(mp))
+        merged = dict(old.get("checks", {}))
+        merged.update(meta.get("checks", {}))            # a partial re-run (IDs given) keeps what the other checks said
         old.update(meta)
+        if merged:
+            old["checks"] = merged
         json.dump(old, open(mp, "w"), indent=1)
         loud = {p: c for p, c in meta.get("checks", {}).items() if c["exit"] != 0}
         print(name, "applies=", meta["patch_applies"], "tests=", meta.get("repo_tests_pass_with_change"),
